@@ -22,6 +22,7 @@ TDo(ev) ==
     [] ev.e = "Stats"      -> Stats(a[1])
     [] ev.e = "IterFirst"  -> IterFirst(r[1])
     [] ev.e = "IterNext"   -> IterNext(a[1], r[1])
+    [] ev.e = "SvcStats"   -> SvcStats(a[1], a[2])
     [] ev.e = "SvcRef"     -> SvcRef
     [] ev.e = "SvcUnref"   -> SvcUnref
     [] ev.e = "RateLimit"  -> RateLimit
